@@ -10,6 +10,7 @@ import (
 	"maps"
 	"math"
 	"slices"
+	"strconv"
 	"strings"
 
 	"github.com/mazrean/kessoku/internal/pkg/collection"
@@ -228,6 +229,10 @@ func createASTTypeExpr(pkg string, t types.Type, varPool *VarPool, imports map[s
 			if !typ.Field(i).Embedded() {
 				// an embedded field has no name of its own: struct{ io.Reader } is not struct{ Reader io.Reader }
 				field.Names = []*ast.Ident{ast.NewIdent(typ.Field(i).Name())}
+			}
+			if tag := typ.Tag(i); tag != "" {
+				// tags are part of a struct type's identity
+				field.Tag = &ast.BasicLit{Kind: token.STRING, Value: strconv.Quote(tag)}
 			}
 			fields = append(fields, field)
 		}
